@@ -126,6 +126,8 @@ def flow_arcs(ctx):
 def rules(ctx):
     tour_producers(ctx)
     type_guards(ctx)
+    from . import formulas as _f
+    _f.schedule_predicates(ctx, "R6")
     before = len(ctx.obligations)
     timing_rule(ctx)
     for o in ctx.obligations[before:]:
